@@ -227,3 +227,57 @@ mut("e14-benign-bearing-locals", ["C15"], "geo/geo.go",
     "\treturn math.Mod(θ*degrees+360, 360)",
     "\tdeg := θ * degrees\n\tconst full = 360.0\n\treturn math.Mod(deg+full, full)",
     kind="benign", note="bearing normalisation with named locals")
+
+# ---------------- rules added after the second round of seeded changes ----------------
+mut("e12-convex-gate-or", ["C03"], "geometry/ring.go",
+    "\tif ring.Convex() {\n\t\t// outer ring is convex so test that all inner points are inside of\n\t\t// the outer ring",
+    "\tif ring.Convex() || other.Convex() {\n\t\t// outer ring is convex so test that all inner points are inside of\n\t\t// the outer ring",
+    "E12.convex", note="vertices-only containment also when only the inner ring is convex")
+mut("e12-convex-segment-or", ["C03"], "geometry/ring.go",
+    "\tif ring.Convex() {\n\t\t// ring is convex so the segment must be contained\n\t\treturn true\n\t}",
+    "\tif ring.Convex() || seg.A.X == seg.B.X {\n\t\t// ring is convex so the segment must be contained\n\t\treturn true\n\t}",
+    "E12.convex", note="segment shortcut taken for concave rings too")
+mut("e9-build-skip-degenerate", ["C04", "C08"], "geometry/series.go",
+    "\t\t\tseg := series.SegmentAt(i)\n\t\t\troot.insert(series, series.rect, seg.Rect(), i, 0)",
+    "\t\t\tseg := series.SegmentAt(i)\n\t\t\tif seg.A == seg.B {\n\t\t\t\tcontinue\n\t\t\t}\n\t\t\troot.insert(series, series.rect, seg.Rect(), i, 0)",
+    "E9.I5", note="zero-length segments are left out of the quadtree only")
+mut("e9-tiling-gap", ["C04"], "geometry/rtree.go",
+    "\tnrect.Min.Y = math.Float64frombits(binary.LittleEndian.Uint64(data[addr:]))\n\taddr += 8",
+    "\tnrect.Min.Y = math.Float64frombits(binary.LittleEndian.Uint64(data[addr:]))\n\taddr += 4",
+    "E9.I2", note="overlapping reads of the node rectangle")
+mut("e10-within-shortcut", ["C10", "C09"], "collection.go",
+    "func (g *collection) WithinRect(rect geometry.Rect) bool {\n\tif g.Empty() {\n\t\treturn false\n\t}",
+    "func (g *collection) WithinRect(rect geometry.Rect) bool {\n\tif g.Empty() {\n\t\treturn false\n\t}\n\tif rect.ContainsRect(g.prect) {\n\t\treturn true\n\t}",
+    "E8", note="bounding-rectangle acceptance ignores empty children")
+mut("e10-exists-stop-on-miss", ["C10", "C09"], "collection.go",
+    "\t\tif child.Spatial().IntersectsPoint(point) {\n\t\t\tintersects = true\n\t\t\treturn false\n\t\t}\n\t\treturn true",
+    "\t\tif child.Spatial().IntersectsPoint(point) {\n\t\t\tintersects = true\n\t\t}\n\t\treturn false",
+    "E8", note="the search stops at the first candidate whether or not it intersects")
+mut("e12-nudge-down", ["C01", "C19"], "geometry/raycast.go",
+    "\t\tp.Y = math.Nextafter(p.Y, math.Inf(1))",
+    "\t\tp.Y = math.Nextafter(p.Y, math.Inf(-1))",
+    "E12.nudge", note="level endpoints counted as above instead of below")
+mut("e12-nudge-once", ["C01", "C19"], "geometry/raycast.go",
+    "\tfor p.Y == a.Y || p.Y == b.Y {\n\t\tp.Y = math.Nextafter(p.Y, math.Inf(1))\n\t}",
+    "\tif p.Y == a.Y || p.Y == b.Y {\n\t\tp.Y = math.Nextafter(p.Y, math.Inf(1))\n\t}",
+    "E12.nudge", note="single nudge step")
+mut("e12-circle-threshold", ["C13"], "circle.go",
+    "\t\tg.haversine = geo.DistanceToHaversine(meters)",
+    "\t\tg.haversine = geo.DistanceToHaversine(meters) * 1.0000001",
+    "E12.circle", note="threshold slightly inflated")
+mut("e6-props-extra-condition", ["C06", "C17"], "object.go",
+    "\t\t\tif !gjson.Get(ex.members, \"properties\").Exists() {",
+    "\t\t\tif !gjson.Get(ex.members, \"properties\").Exists() && len(dst) < 1<<20 {",
+    "E6.props", note="the properties default depends on the destination buffer")
+mut("e6-circle-only-with-option", ["C08", "C13"], "feature.go",
+    "\tcase *SimplePoint:\n\t\tcenter, isPoint = point.Point, true\n\t}",
+    "\tcase *SimplePoint:\n\t\tcenter, isPoint = point.Point, opts.AllowSimplePoints\n\t}",
+    "E6.circle", note="recognition of the circle convention depends on a representation option")
+mut("e12-scan-break", ["C02"], "geometry/line.go",
+    "\t\tif intersects {\n\t\t\treturn true\n\t\t}\n\t}\n\treturn false\n}\n\nfunc (line *Line) ContainsPoly",
+    "\t\tif intersects {\n\t\t\treturn true\n\t\t}\n\t\tif i > 4096 {\n\t\t\tbreak\n\t\t}\n\t}\n\treturn false\n}\n\nfunc (line *Line) ContainsPoly",
+    "E12.scan", note="the scan gives up after 4096 segments")
+mut("e14-makecircle-box-centre", ["C13"], "circle.go",
+    "\t\tx := center.X + lons*math.Cos(radians)",
+    "\t\tx := (minX+maxX)/2 + lons*math.Cos(radians)",
+    "E14.circle", note="ellipse centred on the middle of the cardinal points instead of the centre")
